@@ -7,7 +7,7 @@
    is a disagreement even when the implementation agrees with the model. *)
 From Coq Require Import List ZArith Bool Arith.
 From NT Require Export Sx Rose Surgery Machine CaseMut.
-From NT Require Import WF CaseWF.
+From NT Require Import WF CaseWF CaseHeap.
 Import ListNotations.
 
 Fixpoint wf_trace_chk (ops : list op) (w : world) : list bool :=
@@ -18,10 +18,11 @@ Fixpoint wf_trace_chk (ops : list op) (w : world) : list bool :=
 
 Definition run01 (c : mcase) : sx :=
   match c with
-  | CHist ops => L [run_mut c; sx_list sx_bool (wf_trace_chk ops empty_world)]
+  | CHist ops => L [run_mut c; sx_list sx_bool (wf_trace_chk ops empty_world); run_heap c]
   | CAlts setup alts =>
       let w := run_chk setup empty_world in
       L [run_mut c;
          L [sx_list sx_bool (wf_trace_chk setup empty_world);
-            sx_list sx_bool (map (fun o => wf_world_b (snd (step_chk w o))) alts)]]
+            sx_list sx_bool (map (fun o => wf_world_b (snd (step_chk w o))) alts)];
+         run_heap c]
   end.
